@@ -8,6 +8,7 @@ import (
 	"os"
 	"path/filepath"
 	"strings"
+	"time"
 
 	intoto "github.com/in-toto/in-toto-golang/in_toto"
 
@@ -418,8 +419,12 @@ func c04KeyTypes(c *core.Ctx, cn *int) {
 						file := filepath.Join(c.WorkDir, "c04-ext.json")
 						o2.md.Dump(file)
 						raw, _ := os.ReadFile(file)
-						doc, _ := gen.ParseJSON(raw)
-						d := doc.(map[string]any)
+						doc, perr := gen.ParseJSON(raw)
+						d, isObj := doc.(map[string]any)
+						if perr != nil || !isObj {
+							c.Violation("the library dumped a metadata file that is not valid JSON: "+core.MsgClass(fmt.Sprint(perr)), id, map[string]any{"file": string(raw), "dsse": dsse})
+							continue
+						}
 						enc := hex.EncodeToString(ext)
 						if dsse {
 							enc = base64.StdEncoding.EncodeToString(ext)
@@ -560,8 +565,12 @@ func c04Mutations(c *core.Ctx, cn *int) {
 				file := filepath.Join(c.WorkDir, fmt.Sprintf("c04-mut-%d.json", c.Shard))
 				o.md.Dump(file)
 				raw, _ := os.ReadFile(file)
-				doc, _ := gen.ParseJSON(raw)
-				d := doc.(map[string]any)
+				doc, perr := gen.ParseJSON(raw)
+				d, isObj := doc.(map[string]any)
+				if perr != nil || !isObj {
+					c.Violation("the library dumped a metadata file that is not valid JSON: "+core.MsgClass(fmt.Sprint(perr)), fmt.Sprintf("mutation/v%d/dsse=%v/%s/dump", vi, dsse, kind), map[string]any{"file": string(raw), "dsse": dsse})
+					continue
+				}
 				type mutFile struct {
 					name string
 					doc  any
@@ -638,7 +647,16 @@ func c04Mutations(c *core.Ctx, cn *int) {
 						continue
 					}
 					ob, _ := json.Marshal(mf.doc)
+					// history: the untouched file was loaded from this path before; the altered file has
+					// (for most alterations) the same size and gets the same modification time
+					fixed := time.Unix(1700000000, 0)
+					if orig, oerr := json.Marshal(d); oerr == nil {
+						os.WriteFile(file, orig, 0644)
+						os.Chtimes(file, fixed, fixed)
+						intoto.LoadMetadata(file)
+					}
 					os.WriteFile(file, ob, 0644)
+					os.Chtimes(file, fixed, fixed)
 					c.Begin(id)
 					md, err := intoto.LoadMetadata(file)
 					c.Eval(1)
@@ -718,7 +736,7 @@ func init() {
 	core.Register(&core.Property{
 		ID:    "C04",
 		Level: "exploration",
-		Rule: "(1) all operation histories of length<=3 (quick) / <=4 (thorough) over {sign(k0 Ed25519), sign(k1 ECDSA P-256), sign(k2 RSA-2048), dump+load, change a signed field, sign again with the last signer, edit an element of a collection handed out by GetPayload and set the payload again} x {link, layout} x {legacy, DSSE}; after every operation each of 4 keys (3 history keys + an outsider) must verify iff it signed the current content, and every emitted signature is verified independently with crypto/* over reference bytes (reference canonical JSON / reference DSSE PAE); (2) every key kind (RSA-2048/3072, ECDSA P-224/256/384/521, Ed25519; thorough: fresh keys too) x wrapper x payload: library signs -> stdlib verifies, dump+load, stdlib signs reference bytes -> library verifies; DSSE envelope of an independent implementation (other JSON spelling of the payload; standard or URL-safe base64 for signature / payload) loaded, verified, signed with a second key, both signatures verified by the library and independently over the dumped payload bytes; (3) single-point mutations: every payload leaf edit/delete/insert, signature first/middle/last character, empty/doubled signature, valid signature followed by a suffix (one more digit, non-hex / non-base64 characters, blank, newline, padding), key id edit, every other pool key, key objects with the signer's id and foreign material in both orders of use. " +
+		Rule: "(1) all operation histories of length<=3 (quick) / <=4 (thorough) over {sign(k0 Ed25519), sign(k1 ECDSA P-256), sign(k2 RSA-2048), dump+load, change a signed field, sign again with the last signer, edit an element of a collection handed out by GetPayload and set the payload again} x {link, layout} x {legacy, DSSE}; after every operation each of 4 keys (3 history keys + an outsider) must verify iff it signed the current content, and every emitted signature is verified independently with crypto/* over reference bytes (reference canonical JSON / reference DSSE PAE); (2) every key kind (RSA-2048/3072, ECDSA P-224/256/384/521, Ed25519; thorough: fresh keys too) x wrapper x payload: library signs -> stdlib verifies, dump+load, stdlib signs reference bytes -> library verifies; DSSE envelope of an independent implementation (other JSON spelling of the payload; standard or URL-safe base64 for signature / payload) loaded, verified, signed with a second key, both signatures verified by the library and independently over the dumped payload bytes; (3) single-point mutations of a file that was loaded untouched from the same path before (same size, same modification time): every payload leaf edit/delete/insert, signature first/middle/last character, empty/doubled signature, valid signature followed by a suffix (one more digit, non-hex / non-base64 characters, blank, newline, padding), key id edit, every other pool key, key objects with the signer's id and foreign material in both orders of use. " +
 			"non-trivial = history contains a sign; distinct = (history, wrapper, payload type) / (key kind, wrapper, payload) / (mutation label...)",
 		Assumptions: []string{"Go's crypto/rsa, crypto/ecdsa, crypto/ed25519 are the trusted base (independent use, not an independent implementation)", "payloads are generated with hostile strings, a third of them with absent (nil) collections; reference bytes come from harness/ref/cjson.go"},
 		Workers:     func(string) int { return 16 },
